@@ -2,17 +2,19 @@ package main
 
 func init() {
 	reg(propDef{ID: "C19", Test: "TestC19", Level: "exploration", Shards: [2]int{12, 16}, CapMin: [2]int{10, 40}, Exhaust: true,
-		Rule: "the case list does not depend on the seed: the option grid is finite and enumerated completely in both tiers. " +
+		Rule: "the option grid is finite and enumerated completely in both tiers, independent of the seed. " +
 			"grid cases = one object's whole name x value grid (47 names: every Option* constant, WEBSOCKET-*, UNIX-IPC-*, WIN-IPC-*, 9 junk strings; " +
 			"42 values: nil, bools, ints minint/-1/0/1/2/255/256/65536/maxint, durations -1ns/0/1ns/1s/max/min, strings, byte slices, uint32 and os.FileMode, *tls.Config nil/non-nil, float64, struct{}, other int widths, pointer, slice, map, func, chan) " +
 			"for: sockets of all 24 protocols fresh and connected over each of the 6 transports; contexts of the 5 context patterns fresh and connected; dialers and listeners of 6 transports x 24 protocols, before and after connecting; " +
-			"both pipes of every connection and the accepted pipe after Close. Every call under recover() and under the stuck detector; Get after every accepted Set. " +
-			"effect cases: zero (accepted zero deadline/survey/retry time: call parked until the whole process is quiescent, then completes when satisfied), " +
-			"retain (vt peer: exact retained sets for SUB newest-k and PUB/BUS/STAR/SURVEYOR oldest-k), qlen0 (accepted 0 + traffic: socket stays responsive and connected), " +
-			"deferred (accepted maxint queue length must survive the next AddPipe/Send), inherit (socket options read back from dialers/listeners/contexts created afterwards), " +
-			"resize (50 queue-length changes with traffic flowing / receive queue full: no Detached, exchange succeeds), unsup (ErrProtoOp operations), device (Device errors, no forwarder left). " +
-			"quick: effects on inproc (+vt); thorough: effects on all 6 transports and more queue lengths. " +
+			"both pipes of every connection and the accepted pipe again after Close. Every call under recover() and under the stuck detector; Get before any Set and after every accepted Set. " +
+			"effect cases: zero (accepted zero deadline/survey/retry time: the call is still parked when the whole process is quiescent, then completes when satisfied), " +
+			"retain (vt peer: exact retained sets for SUB newest-k and PUB/BUS/STAR/SURVEYOR oldest-k, sentinel-delimited), qlen0 (accepted 0 + traffic: socket stays responsive and connected), " +
+			"deferred (an accepted maxint queue length must survive the next AddPipe/Send), inherit (socket options read back from dialers/listeners/contexts created afterwards), " +
+			"resize (50 queue-length changes with traffic flowing / receive queue full: no Detached, exchange succeeds; fixed sequence plus seed-chosen sequences, socket listening or dialing), " +
+			"stall (30 changes against a vt peer with the pipe receiver known parked on a full queue / the peer known stalled in Send: transport pipe not closed, traffic afterwards gets through), " +
+			"unsup (ErrProtoOp operations before/after connecting, no side effect), device (Device on nil/cooked/mismatched sockets, no forwarder left, sockets still work). " +
+			"quick: effects on inproc and vt; thorough: effects on all 6 transports, more queue lengths and more seed-chosen sequences. " +
 			"non-trivial = a grid ran to completion on an object / the effect was really exercised (option accepted and traffic observed); " +
-			"distinct = hash of (object label, full outcome table) for grids, of (kind, protocol, option, transport, observed outcome) for effects",
+			"distinct = hash of (object label, full outcome table) for grids, of (kind, protocol, option, transport, sequence, observed outcome) for effects",
 		Assume: commonAssume})
 }
